@@ -10,7 +10,7 @@ import (
 
 func init() {
 	register(&propDef{ID: "C15", Run: runC15,
-		Explain: "Structural necessary conditions of 'dialog pins live as long as promised and are forgotten on termination', decided on SSA/CFG/value flow of /repo: (1) expiry-polarity: GetBackend returns the stored backend only on the edge expire > now and an error otherwise; the sweep removes an entry only on the edge expire < now; (2) max-lifetime: in AddBackend the lifetime added to now is the Expires-derived duration exactly on the edge where Expires (in seconds) exceeds the configured timeout, and the configured timeout on the other edge; the unit constant is one second; the pin stored is {backend argument, now+lifetime} under the dialog argument; (3) sweep-schedule: the value stored into nextCleanTime is now + the configured timeout and derives from no message data (neither the Expires parameter nor anything network-tainted); the sweep is called on the edge nextCleanTime < now of every AddBackend; (4) termination: RemoveDialog(GetDialog(msg)) under method == BYE in the backend-response handler and under method == NOTIFY and Subscription-State == terminated in the pin lookup; (5) timeout-wiring: DialogBasedBackend.timeout derives from the YAML field dialogTimeout (when > 0) or DEFAULT_DIALOG_TIMEOUT / 1200, times one second.",
+		Explain:    "Structural necessary conditions of 'dialog pins live as long as promised and are forgotten on termination', decided on SSA/CFG/value flow of /repo: (1) expiry-polarity: GetBackend returns the stored backend only on the edge expire > now and an error otherwise; the sweep removes an entry only on the edge expire < now; (2) max-lifetime: in AddBackend the lifetime added to now is the Expires-derived duration exactly on the edge where Expires (in seconds) exceeds the configured timeout, and the configured timeout on the other edge; the unit constant is one second; the pin stored is {backend argument, now+lifetime} under the dialog argument; (3) sweep-schedule: the value stored into nextCleanTime is now + the configured timeout and derives from no message data (neither the Expires parameter nor anything network-tainted); the sweep is called on the edge nextCleanTime < now of every AddBackend; (4) termination: RemoveDialog(GetDialog(msg)) under method == BYE in the backend-response handler and under method == NOTIFY and Subscription-State == terminated in the pin lookup; (5) timeout-wiring: DialogBasedBackend.timeout derives from the YAML field dialogTimeout (when > 0) or DEFAULT_DIALOG_TIMEOUT / 1200, times one second.",
 		NotDecided: "anything that depends on elapsed time."})
 }
 
@@ -193,7 +193,10 @@ func c15AddBackend(c *Ctx) {
 	}
 	rule := "max-lifetime"
 	isExp := func(v ssa.Value) bool { return isParam(f, v, 3) }
-	isTimeout := func(v ssa.Value) bool { b, ok := isLoadOf(v, "DialogBasedBackend.timeout"); return ok && isParam(f, b, 0) }
+	isTimeout := func(v ssa.Value) bool {
+		b, ok := isLoadOf(v, "DialogBasedBackend.timeout")
+		return ok && isParam(f, b, 0)
+	}
 	// the pin store
 	var pin *ssa.MapUpdate
 	eachInstr(f, func(in ssa.Instruction) {
@@ -341,6 +344,7 @@ func c15AddBackend(c *Ctx) {
 func c15Termination(c *Ctx) {
 	w := c.w
 	rule := "termination"
+	ruleLookupBeforeForget(c, rule)
 	check := func(fname string, msgParam int, method string, extra func(f *ssa.Function, rm ssa.CallInstruction) (bool, string)) {
 		f := c.fn(rule, fname)
 		if f == nil {
